@@ -82,7 +82,7 @@ var ruleSchemas = []kindSchema{
 	{"dbus", func() aa.Rule { return &aa.Dbus{} }, []fieldChoices{
 		{"Qualifier", qualChoices}, {"Access", []any{s(), s("send"), s("receive"), s("send", "receive"), s("bind")}}, {"Bus", []any{"", "session", "system"}},
 		{"Name", []any{"", "org.vgen.Svc"}}, {"Path", []any{"", "/org/vgen/Obj{,/**}"}}, {"Interface", []any{"", "org.vgen.Iface{,.*}"}}, {"Member", []any{"", "{Get,Set}"}},
-		{"PeerName", []any{"", ":1.42", `"{@{busname},org.vgen.Svc}"`}}, {"PeerLabel", []any{"", "peerlabel", `"@{p_dbus}"`}}, {"Comment", commentChoices}}, true},
+		{"PeerName", []any{"", ":1.42", `"{@{busname},org.vgen.Svc}"`, "org.vgen.Svc"}}, {"PeerLabel", []any{"", "peerlabel", `"@{p_dbus}"`}}, {"Comment", commentChoices}}, true},
 	{"rlimit", func() aa.Rule { return &aa.Rlimit{} }, []fieldChoices{
 		{"Key", []any{"nofile", "nproc", "cpu"}}, {"Op", []any{"<="}}, {"Value", []any{"10", "1024", "infinity"}}, {"Comment", commentChoices}}, true},
 	{"mqueue", func() aa.Rule { return &aa.Mqueue{} }, []fieldChoices{
@@ -653,6 +653,23 @@ func fileRoundTrip(rng *rand.Rand, n int) map[string]any {
 		case 4:
 			f.Preamble = append(f.Preamble, &aa.Alias{Path: fmt.Sprintf("/old%d", i), RewrittenPath: fmt.Sprintf("/new%d", i)})
 			desc = append(desc, "alias")
+		}
+	}
+	// the same preamble rule written twice (an include before and after the variables, a repeated comment)
+	if len(f.Preamble) > 0 && rng.Intn(3) == 0 {
+		src := f.Preamble[rng.Intn(len(f.Preamble))]
+		switch x := src.(type) {
+		case *aa.Include:
+			c := *x
+			if rng.Intn(2) == 0 {
+				c.Comment = " once more"
+			}
+			f.Preamble = append(f.Preamble, &c)
+			desc = append(desc, "inc-again")
+		case *aa.Comment:
+			c := *x
+			f.Preamble = append(f.Preamble, &c)
+			desc = append(desc, "cmt-again")
 		}
 	}
 	h := aa.Header{Name: "vgen-prof", Attachments: [][]string{{}, {"@{exec_path}"}, {"/usr/bin/a", "/usr/bin/{b,c}"}, {"@{bin}/x", "/opt/y", "@{lib}/z"},
